@@ -157,27 +157,37 @@ def bitsEq (a b : List Float) : Bool := a.map Float.toBits == b.map Float.toBits
 def sameShape {σ : Type} (a b : List (List σ)) : Bool := a.map List.length == b.map List.length
 def isZeroRng (seed : Sexp) : Bool := match seed with | .atom "zero" => true | _ => false
 
-/-- Generic verdict for a component whose `execute` either fails its guards or succeeds:
-`valid` = parameters inside the documented domain; `modelErr` = the model's guards reject;
-`okCase` computes (agree, failing-class or "-") from a successful output. -/
-def guarded {σ : Type} (valid modelErr : Bool) (impl : Impl σ)
+/-- A parameter value as the model's guards see it. -/
+def toParam (x : Float) : Param Float :=
+  if x.isNaN then .nan else if x.isInf then (if x > 0 then .posInf else .negInf) else .fin x
+
+def outcomeTag {β : Type} : Outcome β → String
+  | .ok _ => "ok" | .err => "err" | .panic => "panic"
+
+/-- Generic verdict for a component whose `execute` first runs its guards: `valid` = parameters inside
+the documented domain; `modelOut` = what the model's guards (Model/Variation.lean) answer: "ok" / "err" /
+"panic"; `okCase` computes (agree, failing-class or "-") from a successful output. -/
+def guarded {σ : Type} (valid : Bool) (modelOut : String) (impl : Impl σ)
     (okCase : Nat → List Bool → List σ → Bool × String) : Verdict :=
   match impl with
-  | .err _ => verdict modelErr (!valid) "err" (.atom (if modelErr then "err" else "ok"))
-  | .panic => verdict false (!valid) "panic" (.atom (if modelErr then "err" else "ok"))
+  | .err _ => verdict (modelOut == "err") (!valid) "err" (.atom modelOut)
+  | .panic => verdict (modelOut == "panic") (!valid) "panic" (.atom modelOut)
   | .ok h ev pop =>
     let (agree, cls) := okCase h ev pop
-    verdict (agree && !modelErr) (cls == "-" || !valid) cls (.atom (if modelErr then "err" else "ok"))
+    verdict (agree && modelOut == "ok") (cls == "-" || !valid) cls (.atom modelOut)
 
 /-- Individuals whose solution was handed out mutably / newly created carry no objective value. -/
 def allUneval (ev : List Bool) : Bool := ev.all (!·)
 
 -- ---------------------------------------------------------------- rate-gated mutations
 def realMutation (kind : String) (p1 p2 rm : Float) (inp : List (List Float)) (impl : Impl (List Float)) : Verdict :=
-  let strengthValid := kind == "spread" || p1 ≥ 0.0
-  let rateValid := unit01 rm
-  let valid := strengthValid && rateValid
-  guarded valid (!valid) impl fun h ev out =>
+  -- documented domain: finite strength ≥ 0, rate in [0,1]; the guards themselves are the model's
+  let valid := (kind == "spread" || (p1 ≥ 0.0 && p1.isFinite)) && unit01 rm
+  let modelOut := match kind with
+    | "normal" => outcomeTag (normalExec (toParam p1) (toParam rm) ())
+    | "uniform" => outcomeTag (uniformExec (toParam p1) (toParam rm) ())
+    | _ => outcomeTag (rateExec (toParam rm) ())
+  guarded valid modelOut impl fun h ev out =>
     let shape := sameShape inp out
     let rmZero := rm == 0.0
     let rmOne := rm == 1.0
@@ -190,6 +200,7 @@ def realMutation (kind : String) (p1 p2 rm : Float) (inp : List (List Float)) (i
       (x.zip (y.zip mask)).all fun (a, b, m) =>
         !m || (match kind with
           | "uniform" => (b - a).abs ≤ p1 * (1 + 1e-12) + 1e-300
+          | "normal" => p1 != 0.0 || b.toBits == a.toBits || b == a
           | "spread" => p1 ≤ b && b < p2
           | _ => true)
     let cls := if !shape then "dimension"
@@ -199,7 +210,7 @@ def realMutation (kind : String) (p1 p2 rm : Float) (inp : List (List Float)) (i
 
 def bitMutation (kind : String) (p rm : Float) (inp : List (List Bool)) (impl : Impl (List Bool)) : Verdict :=
   let valid := unit01 rm && (kind == "bitflip" || unit01 p)
-  guarded valid (!unit01 rm) impl fun h ev out =>
+  guarded valid (outcomeTag (rateExec (toParam rm) ())) impl fun h ev out =>
     let shape := sameShape inp out
     let rmZero := rm == 0.0
     let rmOne := rm == 1.0
@@ -236,20 +247,20 @@ def permMutation (kind : String) (k : Nat) (rm : Float) (inp : List (List Nat)) 
   let dim := (inp.head?.map List.length).getD 0
   match kind with
   | "swap" =>
-    let ctorOk := decide (2 ≤ k)
+    let ctorOk := swapCtorGuard k
     match impl with
     | .err "ctor" => verdict (!ctorOk) (!ctorOk) "err" (.atom "ctor-err")
     | _ =>
       let execErr := ctorOk && !inp.isEmpty && decide (dim < k)
       let valid := ctorOk && !execErr
-      guarded valid (execErr || !ctorOk) impl fun h ev out =>
+      guarded valid (if execErr || !ctorOk then "err" else "ok") impl fun h ev out =>
         let perSol := (inp.zip out).all fun (x, y) =>
           let w := recoverCycle x y k
           swapLegal k x.length w && (match swapMutation k x w with | .ok r => r == y | _ => false)
         (sameShape inp out && perSol && h == 1 && allUneval ev, permClass inp out ev)
   | "scramble" =>
     let valid := unit01 rm
-    guarded valid (!valid) impl fun h ev out =>
+    guarded valid (outcomeTag (rateExec (toParam rm) ())) impl fun h ev out =>
       let perSol := (inp.zip out).all fun (x, y) =>
         let σ := sourcePositions x y
         scrambleLegal (rm == 0.0) x.length σ && scrambleMutation x σ == some y
@@ -257,7 +268,7 @@ def permMutation (kind : String) (k : Nat) (rm : Float) (inp : List (List Nat)) 
       let cls := if cls == "-" && rm == 0.0 && inp != out then "rate-zero-changed" else cls
       (sameShape inp out && perSol && h == 1 && allUneval ev, cls)
   | "inversion" =>
-    guarded true false impl fun h ev out =>
+    guarded true "ok" impl fun h ev out =>
       let perSol := (inp.zip out).all fun (x, y) =>
         let n := x.length
         let cands : List (Option (Nat × Nat)) :=
@@ -265,14 +276,14 @@ def permMutation (kind : String) (k : Nat) (rm : Float) (inp : List (List Nat)) 
         cands.any fun w => inversionLegal n w && inversionMutation x w == some y
       (sameShape inp out && perSol && h == 1 && allUneval ev, permClass inp out ev)
   | "insertion" =>
-    guarded true false impl fun h ev out =>
+    guarded true "ok" impl fun h ev out =>
       let perSol := (inp.zip out).all fun (x, y) =>
         let n := x.length
         ((List.range n).flatMap fun el => (List.range n).map fun i => (el, i)).any fun w =>
           insertionLegal n w && insertionMutation x w == some y
       (sameShape inp out && perSol && h == 1 && allUneval ev, permClass inp out ev)
   | _ =>
-    guarded true false impl fun h ev out =>
+    guarded true "ok" impl fun h ev out =>
       let perSol := (inp.zip out).all fun (x, y) =>
         let n := x.length
         let cands : List (Option (Nat × Nat × Nat)) :=
@@ -328,7 +339,8 @@ def recNat (kind : String) (n : Nat) (pc : Float) (both zero : Bool) (inp : List
     (impl : Impl (List Nat)) : Verdict :=
   let dim := (inp.head?.map List.length).getD 0
   let pairs := inp.length / 2
-  let valid := kind != "npoint" || (decide (1 ≤ n) && decide (n < dim)) || pairs == 0
+  -- `NPointCrossover::new` accepts every n: a panic on a valid population is a violation whatever n is
+  let valid := true
   -- the all-zero generator draws u = 0.0 for every pair: the model's gate decides
   let mustCross := pc ≥ 1.0 || (zero && crossedBy 0.0 pc)
   let mustNot := pc ≤ 0.0 || (zero && !crossedBy 0.0 pc)
@@ -407,7 +419,7 @@ def popAeq (a b : List (List Float)) : Bool :=
   a.length == b.length && (a.zip b).all fun (x, y) => x.length == y.length && (x.zip y).all fun (u, v) => aeq u v
 
 def deMut (y : Nat) (f : Float) (inp : List (List Float)) (impl : Impl (List Float)) : Verdict :=
-  let ctorOk := deCtorOk y (0.0 ≤ f && f ≤ 2.0)
+  let ctorOk := deCtorGuard y (toParam f)
   let documented := (y == 1 || y == 2) && 0.0 < f && f ≤ 2.0
   match impl with
   | .err "ctor" => verdict (!ctorOk) (!documented) "err" (.atom "ctor-err")
@@ -455,6 +467,53 @@ def deCx (kind : String) (pc : Float) (dim : Nat) (pops : List (List (List Float
     let got : String := match impl with | .err _ => "err" | .panic => "panic" | .ok _ _ _ => "ok"
     verdict (expected == got) true "-" (.atom expected)
 
+/-- Two verdicts in sequence (instance A, then the Global instance on A's output). -/
+def andThen (v1 : Verdict) (v2 : Option Verdict) : Verdict :=
+  match v2 with
+  | none => v1
+  | some v2 =>
+    { agree := v1.agree && v2.agree, holds := v1.holds && v2.holds,
+      cls := if !v1.holds then v1.cls else v2.cls, model := .list [v1.model, v2.model] }
+
+/-- `(idm KIND MODE (a P1 P2 RM) (g P1 P2 RM) SEED pop)` → `(phases R1 [R2])`: an instance with
+identifier `A` executed alone, or `A` and the `Global` instance (different rate/strength) initialised
+side by side and executed one after the other: each must follow ITS OWN parameters. -/
+def idm (kind mode : String) (pa pg : List Sexp) (pop impl : Sexp) : Option Verdict := do
+  let (a1, a2, arm) ← match pa with
+    | [_, x, y, z] => do pure ((← float? x), (← float? y), (← float? z))
+    | _ => none
+  let (g1, g2, grm) ← match pg with
+    | [_, x, y, z] => do pure ((← float? x), (← float? y), (← float? z))
+    | _ => none
+  let phases ← tagged? "phases" impl
+  let r1 ← phases[0]?
+  let r2 := if mode == "both" then phases[1]? else none
+  match kind with
+  | "normal" | "uniform" | "spread" => do
+    let inp ← popOf floats? pop
+    let i1 ← parseImpl floats? r1
+    let v1 := realMutation kind a1 a2 arm inp i1
+    let v2 ← match i1, r2 with
+      | .ok _ _ out1, some r2 => do pure (some (realMutation kind g1 g2 grm out1 (← parseImpl floats? r2)))
+      | _, _ => pure none
+    pure (andThen v1 v2)
+  | "bitflip" | "bits" => do
+    let inp ← popOf bools? pop
+    let i1 ← parseImpl bools? r1
+    let v1 := bitMutation kind a1 arm inp i1
+    let v2 ← match i1, r2 with
+      | .ok _ _ out1, some r2 => do pure (some (bitMutation kind g1 grm out1 (← parseImpl bools? r2)))
+      | _, _ => pure none
+    pure (andThen v1 v2)
+  | _ => do
+    let inp ← popOf nats? pop
+    let i1 ← parseImpl nats? r1
+    let v1 := permMutation "scramble" 0 arm inp i1
+    let v2 ← match i1, r2 with
+      | .ok _ _ out1, some r2 => do pure (some (permMutation "scramble" 0 grm out1 (← parseImpl nats? r2)))
+      | _, _ => pure none
+    pure (andThen v1 v2)
+
 def component (tag : String) (args : List Sexp) (impl : Sexp) : Option Verdict :=
   match tag, args with
   | "mut-normal", [p1, rm, _, pop] => do
@@ -485,6 +544,7 @@ def component (tag : String) (args : List Sexp) (impl : Sexp) : Option Verdict :
     pure (recNat "cycle" 0 (← float? pc) (← bool? both) (isZeroRng seed) (← popOf nats? pop) (← parseImpl nats? impl))
   | "rec-arith", [_, pc, both, seed, pop] => do
     pure (recArith (← float? pc) (← bool? both) (isZeroRng seed) (← popOf floats? pop) (← parseImpl floats? impl))
+  | "idm", [.atom kind, .atom mode, .list pa, .list pg, _, pop] => idm kind mode pa pg pop impl
   | "demut", [y, f, pop] => do
     pure (deMut (← nat? y) (← float? f) (← popOf floats? pop) (← parseImpl floats? impl))
   | "decx", .atom kind :: pc :: _ :: dim :: pops => do
